@@ -277,3 +277,186 @@ Proof.
     rewrite (app_removelast_last [] Hne) at 1. rewrite concat_app. cbn. rewrite app_nil_r. reflexivity. }
   rewrite Hc. apply Permutation_refl.
 Qed.
+
+(* ------------------------------------------------------------------ per-contact histories (C10) *)
+Inductive cev := CAnswer | CHearsay | CQueryRecv | CQuerySent.
+
+(* what the table does to the slot of a contact on each kind of event *)
+Definition cstep (n : node) (e : Z * cev) : node :=
+  let now := fst e in
+  match snd e with
+  | CAnswer => node_update now n (as_good (nd_id n) (nd_addr n) now)
+  | CHearsay => node_update now n (as_questionable (nd_id n) (nd_addr n) now)
+  | CQueryRecv => if is_pingable now n then remote_request now n else n
+  | CQuerySent => if is_pingable now n then local_request now n else n
+  end.
+
+Definition enroll (id : N) (a : addr) (e : Z * cev) : node :=
+  match snd e with
+  | CAnswer => as_good id a (fst e)
+  | _ => as_questionable id a (fst e)
+  end.
+
+Fixpoint ctimes_from (t0 : Z) (evs : list (Z * cev)) : Prop :=
+  match evs with
+  | [] => True
+  | e :: r => t0 <= fst e /\ ctimes_from (fst e) r
+  end.
+
+Definition last_time (t0 : Z) (evs : list (Z * cev)) : Z := fold_left (fun _ e => fst e) evs t0.
+
+(* where the fields of a contact come from *)
+Definition Prov (hist : list (Z * cev)) (n : node) : Prop :=
+  (forall tr, last_response n = Some tr ->
+     In (tr, CAnswer) hist \/ exists th, In (th, CHearsay) hist /\ tr = th - 900000000000) /\
+  (forall tq, last_request n = Some tq -> In (tq, CQueryRecv) hist).
+
+Lemma node_update_fields now self other :
+  let r := node_update now self other in
+  (last_response r = last_response self \/ last_response r = last_response other) /\
+  (last_request r = last_request self \/ last_request r = last_request other).
+Proof.
+  unfold node_update. destruct (node_status now self), (node_status now other); cbn; auto.
+Qed.
+
+Lemma prov_step hist n e : Prov hist n -> Prov (hist ++ [e]) (cstep n e).
+Proof.
+  intros [P1 P2]. destruct e as [now k]. unfold cstep. cbn [fst snd].
+  assert (W : forall x, In x hist -> In x (hist ++ [(now, k)])) by (intros; apply in_or_app; left; assumption).
+  assert (L : In (now, k) (hist ++ [(now, k)])) by (apply in_or_app; right; left; reflexivity).
+  destruct k.
+  - destruct (node_update_fields now n (as_good (nd_id n) (nd_addr n) now)) as [[E1|E1] [E2|E2]];
+      split; intros t Ht; rewrite ?E1, ?E2 in Ht; cbn in Ht;
+      try (destruct (P1 t Ht) as [H|[th [H1 H2]]]; [left; apply W, H | right; exists th; split; [apply W, H1 | exact H2]]);
+      try (apply W, P2, Ht); try discriminate;
+      try (inversion Ht; subst; left; exact L).
+  - destruct (node_update_fields now n (as_questionable (nd_id n) (nd_addr n) now)) as [[E1|E1] [E2|E2]];
+      split; intros t Ht; rewrite ?E1, ?E2 in Ht; cbn in Ht;
+      try (destruct (P1 t Ht) as [H|[th [H1 H2]]]; [left; apply W, H | right; exists th; split; [apply W, H1 | exact H2]]);
+      try (apply W, P2, Ht); try discriminate;
+      try (inversion Ht; subst; right; exists now; split; [exact L | rewrite max_last_seen_val; reflexivity]).
+  - destruct (is_pingable now n); [|split; intros t Ht;
+      [destruct (P1 t Ht) as [H|[th [H1 H2]]]; [left; apply W, H | right; exists th; split; [apply W, H1 | exact H2]] | apply W, P2, Ht]].
+    split; intros t Ht; cbn in Ht.
+    + destruct (P1 t Ht) as [H|[th [H1 H2]]]; [left; apply W, H | right; exists th; split; [apply W, H1 | exact H2]].
+    + inversion Ht; subst. exact L.
+  - assert (Q : Prov (hist ++ [(now, CQuerySent)]) n).
+    { split; intros t Ht; [destruct (P1 t Ht) as [H|[th [H1 H2]]]; [left; apply W, H | right; exists th; split; [apply W, H1 | exact H2]] | apply W, P2, Ht]. }
+    destruct (is_pingable now n); [|exact Q].
+    unfold local_request. destruct Q as [Q1 Q2].
+    destruct (status_eqb _ Good); split; cbn; assumption.
+Qed.
+
+Lemma prov_enroll id a e : snd e = CAnswer \/ snd e = CHearsay -> Prov [e] (enroll id a e).
+Proof.
+  destruct e as [now k]. unfold enroll, Prov. cbn [fst snd].
+  intros [->| ->]; cbn; (split; [|discriminate]); intros tr H; inversion H; subst.
+  - left. left. reflexivity.
+  - right. exists now. split; [left; reflexivity | rewrite max_last_seen_val; reflexivity].
+Qed.
+
+Lemma prov_run : forall evs hist n, Prov hist n -> Prov (hist ++ evs) (fold_left cstep evs n).
+Proof.
+  induction evs as [|e evs IH]; intros hist n P; cbn [fold_left]; [rewrite app_nil_r; exact P|].
+  replace (hist ++ e :: evs) with ((hist ++ [e]) ++ evs) by (rewrite <- app_assoc; reflexivity).
+  apply IH, prov_step, P.
+Qed.
+
+Lemma last_time_ge : forall evs t0, ctimes_from t0 evs -> t0 <= last_time t0 evs.
+Proof.
+  induction evs as [|y evs IH]; intros t0 H; unfold last_time; cbn [fold_left]; [lia|].
+  cbn in H. destruct H as [A B]. specialize (IH _ B). unfold last_time in IH. lia.
+Qed.
+
+Lemma times_in : forall evs t0 e, ctimes_from t0 evs -> In e evs -> t0 <= fst e /\ fst e <= last_time t0 evs.
+Proof.
+  induction evs as [|x evs IH]; intros t0 e Ht Hin; [destruct Hin|].
+  cbn in Ht. destruct Ht as [H1 H2]. unfold last_time. cbn [fold_left]. fold (last_time (fst x) evs).
+  destruct Hin as [<-|Hin].
+  - split; [exact H1 | apply last_time_ge, H2].
+  - destruct (IH _ _ H2 Hin). split; lia.
+Qed.
+
+(* reported good only with an answer, or a query received while known, in the last 15 minutes *)
+Theorem good_only_if_recent id a e0 evs now :
+  snd e0 = CAnswer \/ snd e0 = CHearsay ->
+  ctimes_from (fst e0) evs -> last_time (fst e0) evs <= now ->
+  node_status now (fold_left cstep evs (enroll id a e0)) = Good ->
+  exists t, (In (t, CAnswer) (e0 :: evs) \/ In (t, CQueryRecv) (e0 :: evs)) /\ t <= now /\ now - t < 900000000000.
+Proof.
+  intros He0 Ht Hnow Hg.
+  pose proof (prov_run evs [e0] _ (prov_enroll id a e0 He0)) as [P1 P2]. cbn [app] in P1, P2.
+  assert (Hle : forall x, In x (e0 :: evs) -> fst x <= now).
+  { intros x [<-|Hx]; [|destruct (times_in _ _ _ Ht Hx); lia].
+    pose proof (last_time_ge _ _ Ht). lia. }
+  apply status_good_iff in Hg as [tr [Hr [Hrec|[_ [tq [Hq Hrec]]]]]].
+  - destruct (P1 tr Hr) as [H|[th [H1 H2]]].
+    + exists tr. pose proof (Hle _ H). cbn in H0. unfold recent, dur_since in Hrec. split; [left; exact H|]. lia.
+    + exfalso. pose proof (Hle _ H1). cbn in H. unfold recent, dur_since in Hrec. lia.
+  - exists tq. pose proof (Hle _ (P2 tq Hq)). cbn in H. unfold recent, dur_since in Hrec.
+    split; [right; apply P2, Hq|]. lia.
+Qed.
+
+(* a contact known only by hearsay stays questionable *)
+Theorem hearsay_only_questionable id a t0 evs now :
+  ctimes_from t0 evs -> (forall e, In e evs -> snd e = CHearsay) -> last_time t0 evs <= now ->
+  node_status now (fold_left cstep evs (as_questionable id a t0)) = Questionable.
+Proof.
+  intros Ht Hall Hnow.
+  assert (E : forall u, t0 <= u -> ctimes_from u evs ->
+              fold_left cstep evs (as_questionable id a t0) = as_questionable id a t0).
+  { clear Ht Hnow. induction evs as [|e evs IH]; intros u Hu Ht; [reflexivity|].
+    cbn in Ht. destruct Ht as [H1 H2]. cbn [fold_left].
+    assert (cstep (as_questionable id a t0) e = as_questionable id a t0) as ->.
+    { destruct e as [now' k]. specialize (Hall _ (or_introl eq_refl)). cbn in Hall. subst k.
+      unfold cstep. cbn [fst snd] in *. unfold node_update.
+      rewrite (as_questionable_status id a t0 now') by lia.
+      change (nd_id (as_questionable id a t0)) with id. change (nd_addr (as_questionable id a t0)) with a.
+      rewrite (as_questionable_status id a now' now') by lia. reflexivity. }
+    apply (IH (fun x Hx => Hall x (or_intror Hx)) (fst e)); [lia | exact H2]. }
+  rewrite (E t0 ltac:(lia) Ht). apply as_questionable_status.
+  pose proof (last_time_ge _ _ Ht). lia.
+Qed.
+
+(* a contact that is not good and leaves two consecutive queries unanswered is bad -- not
+   reported, not offered to others, not found by find_node_mut -- whatever queries follow, for
+   as long as it neither answers nor is named again *)
+Theorem two_unanswered_stays_bad n t1 t2 post now :
+  t1 <= t2 ->
+  node_status t1 n <> Good -> is_pingable t1 n = true ->
+  node_status t2 (cstep n (t1, CQuerySent)) <> Good -> is_pingable t2 (cstep n (t1, CQuerySent)) = true ->
+  ctimes_from t2 post -> (forall e, In e post -> snd e = CQueryRecv \/ snd e = CQuerySent) ->
+  last_time t2 post <= now ->
+  node_status now (fold_left cstep post (cstep (cstep n (t1, CQuerySent)) (t2, CQuerySent))) = Bad.
+Proof.
+  intros H12 Hg1 Hp1 Hg2 Hp2 Ht Hall Hnow.
+  set (n1 := cstep n (t1, CQuerySent)) in *.
+  set (n2 := cstep n1 (t2, CQuerySent)).
+  assert (E1 : n1 = local_request t1 n) by (unfold n1, cstep; cbn [fst snd]; rewrite Hp1; reflexivity).
+  assert (E2 : n2 = local_request t2 n1) by (unfold n2, cstep; cbn [fst snd]; rewrite Hp2; reflexivity).
+  destruct (local_request_counts t1 n Hg1) as [C1 [R1 Q1]]. rewrite <- E1 in C1, R1, Q1.
+  destruct (local_request_counts t2 n1 Hg2) as [C2 [R2 Q2]]. rewrite <- E2 in C2, R2, Q2.
+  assert (Hrr : (2 <= refresh_requests n2)%nat) by lia.
+  destruct (last_response n2) as [tr|] eqn:Er.
+  2:{ assert (B : forall u, node_status u n2 = Bad) by (intros u; apply status_bad_iff; left; exact Er).
+      assert (E : fold_left cstep post n2 = n2).
+      { clear - B Hall. induction post as [|e post IH]; [reflexivity|]. cbn [fold_left].
+        assert (cstep n2 e = n2) as ->.
+        { destruct e as [u k]. destruct (Hall _ (or_introl eq_refl)) as [K|K]; cbn in K; subst k;
+            unfold cstep, is_pingable; cbn [fst snd]; rewrite B; reflexivity. }
+        apply IH. intros x Hx. apply Hall. right. exact Hx. }
+      rewrite E. apply B. }
+  assert (Hnr : ~ recent t2 tr).
+  { intros Hrec. apply Hg2. apply status_good_iff. exists tr. split; [symmetry; exact R2 | left; exact Hrec]. }
+  assert (B : forall u, t2 <= u -> node_status u n2 = Bad).
+  { intros u Hu. apply (two_unanswered_bad u n2 tr Er); [eapply not_recent_mono; eassumption | exact Hrr]. }
+  assert (E : forall u, t2 <= u -> ctimes_from u post -> fold_left cstep post n2 = n2).
+  { clear Hnow Ht. induction post as [|e post IH]; intros u Hu Ht; [reflexivity|]. cbn [fold_left].
+    cbn in Ht. destruct Ht as [A1 A2].
+    assert (cstep n2 e = n2) as ->.
+    { destruct e as [v k]. cbn [fst] in *. destruct (Hall _ (or_introl eq_refl)) as [K|K]; cbn in K; subst k;
+        unfold cstep, is_pingable; cbn [fst snd]; rewrite (B v) by lia; reflexivity. }
+    apply (IH (fun x Hx => Hall x (or_intror Hx)) (fst e)); [lia | exact A2]. }
+  rewrite (E t2 ltac:(lia) Ht). apply B.
+  pose proof (last_time_ge _ _ Ht). lia.
+Qed.
